@@ -7,7 +7,11 @@ LEAN_TARGETS = ["Gama.Props.C04"]
 DRIVERS = ["drv_mtf"]
 RULE = ("op histories over MoveToFront<N> (N=1..5): get/erase with keys biased to revisit; "
         "non-trivial = history with at least one hit and one eviction; distinct by history text")
-MODELLED = ["std::pair, template instantiation; object lifetime of buffers (slots are integers)"]
+MODELLED = ["std::pair, template instantiation; object lifetime of buffers (slots are integers)",
+            "resolves / nullity of the symbolic solver machines are input facts (computed from the numeric solver models by the drivers, "
+            "agreement with the real object checked per info line)",
+            "LocalNetwork members outside the translator's fixed ARTEFACTS list; levels Points / Observations of the network "
+            "denotation are symbolic (.sym)"]
 
 
 def gen_mtf_history(rng, maxlen):
@@ -51,11 +55,26 @@ def replay(ctx, payload):
     print(json.dumps(payload.get("failure") or payload.get("no_longer_checks"), indent=1)[:4000])
     return 0
 
-LEVEL_TEXT = ("Lean 4 theorems (all histories, unbounded) about executable models of the solvers' cache/stage/flag "
-              "state machines; models tied to the C++ by differential correspondence on generated API histories and a "
-              "fresh-object oracle on the implementation.")
-LEVEL_NOTE = ("Trusted: Lean kernel, the statements in Props/C04.lean, the correspondence harness and generator. "
-              "Numeric content of cached vectors is compared with tolerance (IEEE rounding is not modelled).")
+LEVEL_TEXT = ("Lean 4 theorems (all histories, unbounded; 76 theorems in Props/C04.lean, C04Full.lean, C04Pending.lean, C04Net.lean) "
+              "about executable models of the solvers' cache/stage/flag state machines (AdjEnvelope, AdjCholDec/AdjGSO, AdjSVD+SVD, "
+              "class Adj, LocalNetwork's update cascade); models tied to the C++ by differential correspondence on generated API "
+              "histories and a fresh-object oracle on the implementation. One value per (problem, configuration, query): "
+              "env_answer_denotes; full_answer_denotes (chol/gso: every history incl. refused solves, every op, outside the exact "
+              "region Pending, under FactsF - derived for the drivers' inputs, full_driver_input_is_instance / "
+              "adj_driver_input_is_instance - and the representation hypothesis hall on the initial configuration); "
+              "svd_answer_denotes and adj_answer_denotes keep their validity hypotheses (SCfgOk/ValidS, AInput.Ok/HAValid). "
+              "Negative regions are theorems: full_fresh_iff_not_pending (chol/gso, iff), svd_pending_differs_from_fresh "
+              "(inequality only, converse not proved), net_raw_reader_on_adjusted_network. Network level: net_answer_denotes / "
+              "net_answer_is_netSolve evaluate the cascade machine's answers through the executed models PE.projectEquations and "
+              "Ls.Net.netSolve; lst is tied to np.minx (net_current_list_is_pe_minx).")
+LEVEL_NOTE = ("Trusted: Lean kernel, the statements in the four Props/C04*.lean files, the correspondence harnesses and generators, "
+              "tools/gen/c04_cascade.py (regex + brace matching on comment-stripped network.h/.cpp, adj_envelope.h: cascade table, "
+              "hand-over site least_squares->min_x(min_n_, min_x_), set_algorithm, MoveToFront capacity; rfl ties handCode_eq, "
+              "setAlgCode_eq, mtf_cache_size_is_source) and tools/gen/c20_icgs.py (ICGS error-counter sites). The state machines "
+              "themselves (Model/EnvState, FullState, AdjState, NetState, MoveToFront) are hand-written and tied by the streams only. "
+              "The network-level denotation is not executed by a driver (drv_netstate runs lst constant; the numeric models are tied "
+              "on fresh networks by the pe / netfacade streams of C05/C01). gso_indep_partial (Lemmas): q_bb in the singular case "
+              "not proved. Numeric content of cached vectors is compared with tolerance (IEEE rounding is not modelled).")
 TECHNIQUE = "Lean 4 proof (invariant by induction over operation histories) + model/implementation correspondence"
 
 
